@@ -608,7 +608,7 @@ func c05NQuads(text string) (string, error) {
 func init() {
 	Register(Meta{
 		ID: "C05", Level: "model_checking", LongCases: true,
-		Rule: "state = JSON-LD document text; initial states = canonical flattened serialisation of base graphs (mixed scalars/links/types, path collision graph, lexical document with source maps, truth table with decoys); transitions = 14 surface rewrites, every applicable (operator, position): prefix context, @vocab context, @base-relative ids, embed a referenced node at one reference, hoist an embedded node, @graph wrapper/top-level array/single node forms, rotate/reverse node order, reverse key order, value<->one-element array per property, @type string<->array, duplicate a value, duplicate/split a node object, fully expanded form, indentation. Depth-bounded search deduplicated on the document text; every transition is first validated to preserve the RDF dataset (sorted N-Quads by json-gold); every state is evaluated with a 7-validation observer profile (count, set, nested, inverse path, message placeholders, path expression, @type) and its (conforms, {(severity, validation, focus node, message)}) must equal the initial state's.",
+		Rule:        "state = JSON-LD document text; initial states = canonical flattened serialisation of base graphs (mixed scalars/links/types, path collision graph, lexical document with source maps, truth table with decoys); transitions = 14 surface rewrites, every applicable (operator, position): prefix context, @vocab context, @base-relative ids, embed a referenced node at one reference, hoist an embedded node, @graph wrapper/top-level array/single node forms, rotate/reverse node order, reverse key order, value<->one-element array per property, @type string<->array, duplicate a value, duplicate/split a node object, fully expanded form, indentation. Depth-bounded search deduplicated on the document text; every transition is first validated to preserve the RDF dataset (sorted N-Quads by json-gold); every state is evaluated with a 7-validation observer profile (count, set, nested, inverse path, message placeholders, path expression, @type) and its (conforms, {(severity, validation, focus node, message)}) must equal the initial state's.",
 		Assumptions: []string{"typed/language-tagged literals and remote contexts are outside the rewrite alphabet", "blank nodes do not occur in the base graphs"},
 	}, c05Gen, c05Run)
 }
